@@ -293,12 +293,16 @@ def r20_6(ctx, rid='R20.6'):
     run - C18 - and a kill between truncation and rewrite must not leave a shorter but acceptable file - C20.)"""
     F = ctx.facts
     ctx.rule(rid, 'AnalyzerInformation::reopen writes back the stored content unchanged up to the closing tag')
-    ro = F.one('AnalyzerInformation::reopen')
-    body = F.body(ro)['body']
-    content = None
-    for x in walk(body):
-        if x.get('k') == 'VarDecl' and (x.get('t') or '') in ('std::string',) and x.get('init') is not None and any((y.get('fn') or '').endswith('::str') for y in walk(x['init'])):
-            content = x
+    ro = body = content = None
+    # the public reopen() may delegate to helpers of the class: take the AnalyzerInformation method that holds the stored content
+    for cand in [f for f in F.all_fns() if f['name'].startswith('AnalyzerInformation::') and F.body(f) is not None and
+                 ('reopen' in f['name'].lower() or any(c['f'].startswith('AnalyzerInformation::') for c in f['calls']) or True)]:
+        if not ('reopen' in cand['name'].lower() or 'resume' in cand['name'].lower()):
+            continue
+        cb = F.body(cand)['body']
+        for x in walk(cb):
+            if x.get('k') == 'VarDecl' and (x.get('t') or '') in ('std::string',) and x.get('init') is not None and any((y.get('fn') or '').endswith('::str') for y in walk(x['init'])):
+                ro, body, content = cand, cb, x
     if content is None:
         raise AnalysisBroken('AnalyzerInformation::reopen: the local holding the stored content was not found')
     di = content['di']
